@@ -89,6 +89,7 @@ Definition oracle (prop comp : N) (c : sx) (impl : list ev) : bool :=
     | 4 | 11 => c04_oracle (spec_of comp) c impl
     | 5 => c05_oracle (spec_of comp) c impl
     | 12 => c04_oracle (spec_of comp) c impl && c01_table_oracle comp c impl
+    | 18 => c18_oracle (spec_of comp) c impl && c04_oracle (spec_of comp) c impl
     | 13 => c04_oracle (spec_of comp) c impl && c01_table_oracle comp c impl && sdt_oracle c impl
     | _ => true
     end
@@ -122,6 +123,7 @@ Definition judged (prop comp : N) (c : sx) : bool :=
               | SL l => match ref_desc l with Some _ => true | None => false end
               | _ => false end
   | 15, 41 => match c with SL [x; _] => match expect false x with Some _ => true | None => false end | _ => false end
+  | _, 14 => true           (* a SLIT reference image can be 2^32 bytes: not computed just for this statistic *)
   | _, _ => if is_table comp then
               match case_parts c with
               | Some (ctor, ops) => match ts_image (spec_of comp) ctor (real_ops ops) with Some _ => true | None => false end
